@@ -7,6 +7,7 @@ import (
 	"go/token"
 	"go/types"
 	"sort"
+	"strings"
 
 	"golang.org/x/tools/go/ssa"
 )
@@ -98,6 +99,13 @@ func topoOrder(fn *ssa.Function) []*ssa.BasicBlock {
 }
 
 type poison struct{ why string }
+
+func invNo(c *Clause) string {
+	if i := strings.LastIndex(c.Label, "."); i >= 0 {
+		return c.Label[i+1:]
+	}
+	return c.Label
+}
 
 // mergeStates joins incoming edge states; returns merged state and per-edge guards.
 func (ex *Exec) mergeStates(ins []edgeState) *State {
@@ -336,7 +344,7 @@ func (ex *Exec) loopHead(fr *Frame, li *loopInfo, st *State) {
 	// init
 	for _, inv := range li.spec.Invariants {
 		g := ex.specBool(fr, st, inv)
-		ex.obligeNamed(st, fmt.Sprintf("%s.init.inv%s", name, inv.Label[len(inv.Label)-1:]), "loop.init", g, "loop invariant holds on entry: "+inv.Text, pos)
+		ex.obligeNamed(st, fmt.Sprintf("%s.init.%s", name, invNo(inv)), "loop.init", g, "loop invariant holds on entry: "+inv.Text, pos)
 	}
 	// havoc
 	ms := ex.loopModSet(fr, li)
@@ -357,12 +365,12 @@ func (ex *Exec) loopBack(fr *Frame, li *loopInfo, st *State, from *ssa.BasicBloc
 	pos := loopPos(li)
 	for _, inv := range li.spec.Invariants {
 		g := ex.specBool(fr, st, inv)
-		ex.obligeNamed(st, fmt.Sprintf("%s.step.inv%s@b%d", name, inv.Label[len(inv.Label)-1:], from.Index), "loop.step", g, "loop invariant preserved: "+inv.Text, pos)
+		ex.obligeNamed(st, fmt.Sprintf("%s.step.%s@b%d", name, invNo(inv), from.Index), "loop.step", g, "loop invariant preserved: "+inv.Text, pos)
 	}
 	if li.spec.Variant != nil {
 		v := ex.specTerm(fr, st, li.spec.Variant)
 		var g string
-		if ex.vc.mode == ModeBV {
+		if ex.vc.tc.isBV(v.T) {
 			g = sAnd(sx("bvsle", ex.vc.tc.intLit64(0, v.T), li.variant), sx("bvslt", v.S, li.variant))
 		} else {
 			g = sAnd(sx("<=", "0", li.variant), sx("<", v.S, li.variant))
@@ -674,8 +682,10 @@ func (ex *Exec) havocModSet(fr *Frame, st *State, ms *modSet, tag string) {
 	}
 	if ms.allHeap {
 		for k := range st.heap {
-			ms2 := k
-			srt := ex.compSort(ms2)
+			if g := ex.prog.globalByComp[k]; g != nil && !ex.prog.mutableGlobals[g] {
+				continue // never written outside init: keeps its value
+			}
+			srt := ex.compSort(k)
 			st.heap[k] = vc.fresh("Hh_"+trimCompPrefix(k)+"_"+tag, srt)
 		}
 		for k := range st.ghost {
@@ -684,7 +694,6 @@ func (ex *Exec) havocModSet(fr *Frame, st *State, ms *modSet, tag string) {
 			}
 			st.ghost[k] = vc.fresh("Gh_"+k+"_"+tag, ex.compSort(k))
 		}
-		st.ghost["$epoch"] = tag
 		vc.note("loop/call in %s havocs the whole heap", funcKey(fr.fn))
 		return
 	}
